@@ -32,8 +32,11 @@ TDispose == /\ Step("Dispose") /\ Intact /\ E.m \in live   \* released exactly o
 \* its ID and question are the request's own and it equals the response the same
 \* request gets when it is processed alone
 TResp == Step("Resp") /\ E.idok /\ E.qok /\ E.same /\ E.shapeok /\ UNCHANGED <<owns, live>>
+\* a filtering verdict obtained while other profiles were asking the same storage: it equals the
+\* verdict the same (profile, host, type) gets when it is asked alone
+TFlt == Step("Flt") /\ E.same /\ UNCHANGED <<owns, live>>
 TraceInit == l = 1 /\ owns = <<>> /\ live = {}
-TraceNext == TReset \/ TNew \/ TClone \/ TRewrite \/ TDispose \/ TResp
+TraceNext == TReset \/ TNew \/ TClone \/ TRewrite \/ TDispose \/ TResp \/ TFlt
 TraceSpec == TraceInit /\ [][TraceNext]_<<l, owns, live>>
 NoAlias == \A a, b \in live : a # b => owns[a] \cap owns[b] = {}
 TraceAccepted == LET d == TLCGet("stats").diameter IN
